@@ -633,6 +633,7 @@ func init() {
 		ID:    "C20",
 		Level: "exploration",
 		Rule: "each case = one (type, operation) applied to a batch of operand pairs drawn from per-limb boundary words, 2^k-1/2^k/2^k+1, equal and neighbouring operands, random bit lengths and random values, shift amounts 0..width+64 with emphasis on multiples of 64 +-1; the -cross sub-checks apply every operation to EVERY ordered pair of a boundary set (values with one or two adjacent non-zero limbs out of 7 (quick) / 11 (thorough) boundary words, each -1..+1 (quick) / -2..+2 (thorough), and the 8 largest values); " +
+			"Added later: shift amounts far beyond the width (2^31, 2^32, 2^62, 2^63, 2^64-1 and neighbours), the single-limb primitives Uint64.LeftShift64/RightShift64 for n = 0..64 with arbitrary carry-in words (documented result u<<n | low n bits of the carry). " +
 			"oracle math/big on raw limbs; distinct_nontrivial = distinct (type, operation, fits/overflows, limb count of a, limb count of b, shift range) classes actually evaluated; division by zero and narrowing of values that do not fit are outside the property and skipped",
 		Assume: []string{"math/big is exact", "the overflow signal is the recoverable log.Panicf of the library", "an operation on at most 256 bits that does not return within 30 s never returns"},
 		Subs: []core.Sub{
